@@ -143,6 +143,25 @@ func verifDrive(ro *RedisOutput, st *verifStream, fake *verifFake, txnMode bool,
 				close(fake.releaseReceive)
 			}
 		}()
+		// tick: deliver a ticker firing; while the sender is stuck behind the held batch its replies
+		// eventually arrive (false = the run has stopped)
+		tick := func(ev int) bool {
+			for {
+				var idle <-chan time.Time
+				if fake.holdReceive > 0 && !released {
+					idle = time.After(verifHoldFor)
+				}
+				select {
+				case verifTickers[ev-1] <- time.Time{}:
+					return true
+				case <-idle:
+					released = true
+					close(fake.releaseReceive)
+				case <-rw.Done():
+					return false
+				}
+			}
+		}
 		for next < len(st.items) {
 			ev := 0
 			if ticks < maxTicks {
@@ -171,9 +190,7 @@ func verifDrive(ro *RedisOutput, st *verifStream, fake *verifFake, txnMode bool,
 				}
 			} else {
 				ticks++
-				select {
-				case verifTickers[ev-1] <- time.Time{}:
-				case <-rw.Done():
+				if !tick(ev) {
 					close(done)
 					return
 				}
@@ -186,9 +203,7 @@ func verifDrive(ro *RedisOutput, st *verifStream, fake *verifFake, txnMode bool,
 				break
 			}
 			ticks++
-			select {
-			case verifTickers[ev-1] <- time.Time{}:
-			case <-rw.Done():
+			if !tick(ev) {
 				close(done)
 				return
 			}
@@ -495,7 +510,46 @@ func verifCheckC09(st *verifStream, run *verifSendRun) {
 }
 
 // VerifSenderTxn / VerifSenderNonTxn: one run from a fresh target.
-func verifSender(txnMode bool, pipe ...bool) {
+func verifSender(txnMode bool, pipe ...bool) { verifSenderOn(nil, txnMode, pipe...) }
+
+// verifGenAdjacentTxns: two source transactions back to back (EXEC directly followed by MULTI), the second
+// one longer than a batch; symbolic increasing offsets.
+func verifGenAdjacentTxns() *verifStream {
+	st := &verifStream{}
+	st.start = verifI64("start")
+	verifAssume(verifAnd(st.start >= 0, st.start < 1<<40))
+	off := st.start
+	nextOff := func() int64 {
+		noff := verifI64("off")
+		verifAssume(verifAnd(noff > off, noff < 1<<41))
+		off = noff
+		return off
+	}
+	data := func(group int) {
+		it := verifItem{kind: verifItData, id: st.nData, group: group}
+		it.ce = cmdExecution{Cmd: "set", Args: []interface{}{verifDataKey(st.nData), []byte("v")}, Offset: nextOff(), Db: -1}
+		st.nData++
+		st.items = append(st.items, it)
+	}
+	bracket := func(kind int, cmd string, group int) {
+		st.items = append(st.items, verifItem{kind: kind, group: group, ce: cmdExecution{Cmd: cmd, Args: []interface{}{}, Offset: nextOff(), Db: -1}})
+	}
+	bracket(verifItMulti, "multi", 1)
+	data(1)
+	bracket(verifItExec, "exec", 1)
+	if verifChoose("pingBetween", 2) == 1 {
+		st.items = append(st.items, verifItem{kind: verifItPing, ce: cmdExecution{Cmd: "ping", Args: []interface{}{}, Offset: nextOff(), Db: -1}})
+	}
+	bracket(verifItMulti, "multi", 2)
+	n2 := verifRange("second", 2, 3)
+	for i := 0; i < n2; i++ {
+		data(2)
+	}
+	bracket(verifItExec, "exec", 2)
+	return st
+}
+
+func verifSenderOn(gen func() *verifStream, txnMode bool, pipe ...bool) {
 	// blocking sending (Exec per batch) or pipelined sending (Dispatch, replies read by the receiver goroutine)
 	pipelined := len(pipe) > 0 && pipe[0]
 	k := verifParam("K", 3)
@@ -504,8 +558,16 @@ func verifSender(txnMode bool, pipe ...bool) {
 		k = verifParam("PK", 3)
 		maxTicks = verifParam("PTICKS", 0)
 	}
+	if gen != nil {
+		maxTicks = verifParam("ATICKS", 1)
+	}
 	bc := uint(verifRange("batchCount", 1, verifParam("BC", 2)))
-	st := verifGenStream(k, 0, true)
+	var st *verifStream
+	if gen != nil {
+		st = gen()
+	} else {
+		st = verifGenStream(k, 0, true)
+	}
 	fake := verifNewFake()
 	fake.tagOf = verifTagOf
 	ro := verifNewOutput(txnMode, bc, fake)
@@ -547,6 +609,12 @@ func verifSender(txnMode bool, pipe ...bool) {
 }
 
 func VerifSenderTxn()    { verifSender(true) }
+
+// VerifSenderTxnAdjacent: transactional mode, two source transactions back to back (the second longer than
+// a batch), blocking or pipelined sending, <= TICKS ticker firings - same oracles.
+func VerifSenderTxnAdjacent() {
+	verifSenderOn(verifGenAdjacentTxns, true, verifChoose("pipelined", 2) == 1)
+}
 func VerifSenderNonTxn() { verifSender(false) }
 
 // the same with pipelined sending: batches are dispatched, their replies are read by the sender's
